@@ -45,3 +45,24 @@ Theorem C05_default_tables_are_the_specified_ones :
   dtable_of 5 spec_OF_default ZV.Gen.Gen_Tables.OF_base ZV.Gen.Gen_Tables.OF_bits = Some ZV.Gen.Gen_Tables.OF_defaultDTable.
 Proof. exact default_dtables_correct. Qed.
 Print Assumptions C05_default_tables_are_the_specified_ones.
+
+(* ---- conformance of what the serialiser model A produces (coq/Codec/Encode*.v; tied byte-for-byte to the frames the
+        real compressor emits by the per-run A-tie): a frame assembled by the LZ compressor model from parses that pass the
+        number-level validity check IN STRICT MODE (window rule enforced) is accepted by the strict reference decoder, i.e. it
+        is a conformant frame, and it is truthful: declared content size = content length, stored checksum = XXH64 low bits ---- *)
+From ZV.Codec Require Import Encode EncodeProofs EncodeSeq EncodeLzFrame EncodeLzFrameProofs.
+
+Theorem C05_model_frames_are_conformant_and_truthful : forall cfg d p dictID pbs ebs z rest,
+  let content := blocks_content ebs in
+  let win := frame_window p (lenN content) in
+  let blockMax := N.min (N.min win BLOCK_MAX) (c_block_max cfg) in
+  c_strict_window cfg = true -> c_check cfg = true ->
+  pbs <> [] ->
+  pblocks_run true win blockMax (z_init d) pbs = Some (ebs, z) ->
+  params_ok p (lenN content) dictID -> c_magicless cfg = fp_magicless p -> win <= c_window_max cfg -> dict_ok d p dictID ->
+  exists t, decode_frame cfg d (enc_frame p dictID ebs ++ rest) = Ok (content, t, rest) /\
+            (forall v, fh_fcs (ft_header t) = Some v -> v = lenN content) /\
+            (fh_checksum (ft_header t) = true -> ft_checksum t = Some (low32 (xxh64 content 0))) /\
+            Forall (fun b => bt_rsize b <= blockMax) (ft_blocks t).
+Proof. exact lz_model_conformant. Qed.
+Print Assumptions C05_model_frames_are_conformant_and_truthful.
